@@ -59,7 +59,11 @@ func untrackCommand(cmd *cobra.Command, args []string) {
 func removePath(path string, args []string) bool {
 	withoutCurrentDir := tools.TrimCurrentPrefix(path)
 	for _, t := range args {
-		if withoutCurrentDir == escapeAttrPattern(tools.TrimCurrentPrefix(t)) {
+		arg := tools.TrimCurrentPrefix(t)
+		// The line may have been written either for a pattern or, by
+		// `git lfs track --filename`, for a literal file name.
+		if withoutCurrentDir == escapeAttrPattern(arg) ||
+			withoutCurrentDir == escapeGlobCharacters(arg) {
 			return true
 		}
 	}
